@@ -132,9 +132,111 @@ module T = struct
     print_obs s
 end
 
+(* ------------------------------------------------------------------ linear *)
+
+module L = struct
+  (* live: allocation number -> (handle, granted size); the handle is offset+1 as in Go *)
+  type st = { mutable l : Linear.linear; live : (int, int * int) Hashtbl.t; mutable next_k : int }
+
+  let init c =
+    let h = if c.handler = "vam" then Gran.HVam else Gran.HFake in
+    { l = Linear.linear_init h (z_of_int c.gran) (z_of_int c.size); live = Hashtbl.create 16; next_k = 0 }
+
+  let print_obs s =
+    let l = s.l in
+    let v = match Linear.validate l with Some true -> 1 | Some false -> 0 | None -> 2 in
+    Printf.printf "S cnt=%d free=%d empty=%d fr=-1 val=%d\n"
+      (int_of_z (Linear.allocation_count l)) (int_of_z (Linear.sum_free_size l))
+      (bool_int (Linear.is_empty l)) v;
+    let ks = Stdlib.List.sort compare (Hashtbl.fold (fun k _ acc -> k :: acc) s.live []) in
+    print_string "L";
+    Stdlib.List.iter (fun k ->
+        let (h, sz) = Hashtbl.find s.live k in
+        let off = int_of_z (Linear.allocation_offset (z_of_int h)) in
+        let tg = match Linear.get_user_data l (z_of_int h) with
+          | Linear.UDOk tg -> tag_str tg | Linear.UDError -> "E" | Linear.UDPanic -> "P" in
+        Printf.printf " %d:%d:%d:%s" k off sz tg) ks;
+    print_newline ();
+    print_string "V";
+    (match Linear.visit_regions l with
+     | None -> print_string " panic"
+     | Some rs ->
+       let rs = Stdlib.List.map (fun (((off, sz), free), tg) -> (int_of_z off, int_of_z sz, free, tg)) rs in
+       (* muh sorts the visited regions by (offset, size), stable *)
+       let rs = Stdlib.List.stable_sort (fun (o1, s1, _, _) (o2, s2, _, _) ->
+           if o1 <> o2 then compare o1 o2 else compare s1 s2) rs in
+       Stdlib.List.iter (fun (off, sz, free, tg) ->
+           if sz <> 0 then Printf.printf " %d:%d:%d:%s" off sz (bool_int free) (tag_str tg)) rs);
+    print_newline ();
+    (match Linear.add_statistics l with
+     | None -> print_endline "ST panic"
+     | Some st ->
+       Printf.printf "ST %d %d %d %d\n" (int_of_z st.Linear.s_blocks) (int_of_z st.Linear.s_allocs)
+         (int_of_z st.Linear.s_block_bytes) (int_of_z st.Linear.s_alloc_bytes));
+    (match Linear.add_detailed_statistics l with
+     | None -> print_endline "DS panic"
+     | Some d ->
+       let om = function None -> -1 | Some z -> int_of_z z in
+       let ds = d.Linear.d_stats in
+       Printf.printf "DS %d %d %d %d %d %d %d %d %d\n" (int_of_z ds.Linear.s_blocks) (int_of_z ds.Linear.s_allocs)
+         (int_of_z ds.Linear.s_block_bytes) (int_of_z ds.Linear.s_alloc_bytes) (int_of_z d.Linear.d_unused_count)
+         (om d.Linear.d_alloc_min) (int_of_z d.Linear.d_alloc_max) (om d.Linear.d_unused_min) (int_of_z d.Linear.d_unused_max))
+
+  let kind_str = function Util.ROk -> "ok" | Util.RRefused -> "refused" | Util.RError -> "error" | Util.RPanic -> "panic"
+
+  let exec s (f : string list) =
+    let i n = int_of_string (Stdlib.List.nth f n) in
+    let zi n = z_of_int (i n) in
+    let maxoff n = if i n < 0 then max_int_z else zi n in
+    (match Stdlib.List.hd f with
+     | "A" ->
+       let op = Linear.OAlloc (zi 1, zi 2, zi 3, zi 4, i 5 = 1, maxoff 6, tag_of_int (i 7)) in
+       let (l', o) = Linear.step s.l op in
+       s.l <- l';
+       (match o.Linear.o_kind with
+        | Util.ROk ->
+          let k = s.next_k in
+          s.next_k <- k + 1;
+          Hashtbl.replace s.live k (int_of_z o.Linear.o_off + 1, int_of_z o.Linear.o_size);
+          Printf.printf "R ok %d %d\n" (int_of_z o.Linear.o_off) (int_of_z o.Linear.o_size)
+        | k -> Printf.printf "R %s\n" (kind_str k))
+     | "Q" ->
+       let op = Linear.ORequest (zi 1, zi 2, zi 3, zi 4, i 5 = 1, maxoff 6) in
+       let (l', o) = Linear.step s.l op in
+       s.l <- l';
+       (match o.Linear.o_kind with
+        | Util.ROk -> Printf.printf "R ok %d %d\n" (int_of_z o.Linear.o_off) (int_of_z o.Linear.o_size)
+        | k -> Printf.printf "R %s\n" (kind_str k))
+     | "F" ->
+       (match Hashtbl.find_opt s.live (i 1) with
+        | None -> print_endline "R nolive"
+        | Some (h, _) ->
+          let (l', o) = Linear.step s.l (Linear.OFree (z_of_int h)) in
+          s.l <- l';
+          if o.Linear.o_kind = Util.ROk then Hashtbl.remove s.live (i 1);
+          Printf.printf "R %s\n" (kind_str o.Linear.o_kind))
+     | "U" ->
+       (match Hashtbl.find_opt s.live (i 1) with
+        | None -> print_endline "R nolive"
+        | Some (h, _) ->
+          let (l', o) = Linear.step s.l (Linear.OSetUD (z_of_int h, tag_of_int (i 2))) in
+          s.l <- l';
+          Printf.printf "R %s\n" (kind_str o.Linear.o_kind))
+     | "C" ->
+       let (l', _) = Linear.step s.l Linear.OClear in
+       s.l <- l';
+       Hashtbl.reset s.live;
+       print_endline "R ok"
+     | "M" ->
+       let (_, o) = Linear.step s.l (Linear.OMayHave (zi 1, zi 2)) in
+       Printf.printf "R ok %d\n" (int_of_z o.Linear.o_off)
+     | _ -> ());
+    print_obs s
+end
+
 (* ------------------------------------------------------------------ main loop *)
 
-type anyst = NoSt | TSt of T.st
+type anyst = NoSt | TSt of T.st | LSt of L.st
 
 let () =
   let ic = if Array.length Sys.argv > 1 then open_in Sys.argv.(1) else stdin in
@@ -149,11 +251,12 @@ let () =
        | "CFG" :: _ ->
          print_endline line;
          let c = parse_cfg line in
-         st := (match c.algo with "tlsf" -> TSt (T.init c) | _ -> NoSt)
+         st := (match c.algo with "tlsf" -> TSt (T.init c) | "linear" -> LSt (L.init c) | _ -> NoSt)
        | "END" :: _ -> print_endline "END"
        | ("A" | "Q" | "F" | "U" | "C" | "M") :: _ ->
          (match !st with
           | TSt s -> print_endline line; T.exec s f
+          | LSt s -> print_endline line; L.exec s f
           | NoSt -> ())
        | _ -> ()
      done
